@@ -3,7 +3,6 @@ from datetime import datetime
 import numpy as np
 
 from visions.backends.numpy.array_utils import (
-    all_type,
     array_handle_nulls,
     array_not_empty,
 )
@@ -11,12 +10,12 @@ from visions.types.object import Object
 
 
 def not_excluded_type(array: np.ndarray, excludes) -> bool:
-
-    if len(array) == 0 or not isinstance(array[0], excludes):
+    if len(array) == 0:
         return True
 
-    dtype = type(array[0])
-    return not all_type(array, dtype)
+    # excluded: every value is an instance of one and the same excluded class,
+    # whatever the order of the values
+    return not any(all(isinstance(v, cls) for v in array) for cls in excludes)
 
 
 @Object.contains_op.register
